@@ -64,6 +64,9 @@ pub struct Tap {
     ops: u64,
     fail_at: Option<u64>,
     broken: bool,
+    /// rewrite the minor version of an outgoing Connect2 (lets the real client, which always asks
+    /// for the latest version, negotiate an older one)
+    rewrite_minor: Option<u32>,
 }
 
 impl Tap {
@@ -75,7 +78,13 @@ impl Tap {
             ops: 0,
             fail_at: None,
             broken: false,
+            rewrite_minor: None,
         }
+    }
+
+    pub fn rewrite_connect_minor(mut self, minor: Option<u32>) -> Self {
+        self.rewrite_minor = minor;
+        self
     }
 
     /// Fail the k-th (1-based) completed transport operation of this end and everything after it.
@@ -214,6 +223,13 @@ impl AsyncTransport for Tap {
             return Err(TErr::Injected);
         }
         this.account(Op::SendStart)?;
+        let msg = match (msg, this.rewrite_minor) {
+            (Message::Connect2(mut c), Some(minor)) => {
+                c.minor_version = minor;
+                Message::Connect2(c)
+            }
+            (m, _) => m,
+        };
         let copy = msg.clone();
         let res = match this.inner.as_mut() {
             Some(Inner::U(t)) => Pin::new(t).send_start(msg).map_err(|_| TErr::Disconnected),
